@@ -224,6 +224,14 @@ def packResourcesLoop (limit : Option Nat) : List Resource → PState → Res (P
 
 def minSize : Nat := Facts.pack_minSize   -- 512
 
+/-- `if edns0Opt != nil { m.Additionals = append(…, edns0Opt); edns0Opt.pack(b, off, …) }` -/
+def packOpt (opt : Option Resource) (s : PState) : Res PState :=
+  match opt with
+  | some o => do
+    let (bs, tbl) ← packResource (12 + s.body.length) s.tbl o
+    .ok ⟨s.body ++ bs, tbl⟩
+  | none => .ok s
+
 /-- `Msg.Pack(b, compression, size)` with `cap = len(b)`. Returns the packed message
     (`b[:n]`). -/
 def packMsg (m : Msg) (compression : Bool) (size : Nat) (cap : Nat) : Res Bytes :=
@@ -248,11 +256,7 @@ def packMsg (m : Msg) (compression : Bool) (size : Nat) (cap : Nat) : Res Bytes 
         let (s3, kn) ← packResourcesLoop limit m.authorities s2
         let (s4, kx) ← packResourcesLoop limit additionals s3
         -- the popped OPT is appended again and packed last
-        let s5 ← match opt with
-          | some o => do
-            let (bs, tbl) ← packResource (12 + s4.body.length) s4.tbl o
-            (Res.ok ⟨s4.body ++ bs, tbl⟩ : Res PState)
-          | none => Res.ok s4
+        let s5 ← packOpt opt s4
         let truncated := kq + ka + kn + kx > 0
         let bits := if truncated then Nat.lor (bitsOfHeader m.hdr) headerBitTC else bitsOfHeader m.hdr
         let out := enc16 m.hdr.id ++ enc16 bits
